@@ -176,6 +176,15 @@ impl<'a> StateMachine<'a> {
                 self.flush_unterminated_merge_conflict()?;
             }
 
+            // A hunk header is written when the first line of its hunk arrives. If what arrives
+            // is no hunk line (truncated input, a header without lines), it is written now: it
+            // belongs before whatever comes next.
+            if matches!(self.state, State::HunkHeader(_, _, _, _))
+                && !(self.line.is_empty() || self.line.starts_with(['+', '-', ' ', '\\']))
+            {
+                self.emit_pending_hunk_header()?;
+            }
+
             if matches!(self.state, State::SubmoduleShort(_))
                 && !self.line.starts_with("+Subproject commit ")
             {
